@@ -31,6 +31,8 @@ TEXT = {
          "set_loops / set_waveform replace their whole blob and own it; update(snapshot) is not a single-field change and is not judged"),
  "C05": ("Storage faults as the source of arbitrary bytes: in a library with fully analysed tracks a second SQLite client damages one stored blob cell at a time (truncation at every length, bit flips in the compressed stream, payload edits re-deflated, every embedded count/length set to -1/0/1/fit/fit+1/2^31/2^61/2^63-1/INT64_MIN, rewritten length prefix, trailing garbage, missing end marker, tiny and NULL cells, truncated payload in an intact frame, lost and torn ranges) or flips bits in raw database pages while the library is closed; afterwards every reader runs (snapshot, all getters, read-modify-write setters, track_table::get, per-column blob getters, the public from_blob decoders on the same bytes) under ASan+UBSan+libstdc++ assertions with deterministic termination detectors (inflate progress, VM ticks). Any sanitizer report, signal, foreign exception or non-termination is a violation; all 11 decoders (6 x 1.x through the track API, 5 x 2.x directly and through both APIs) are reached.",
          "seeded structured corruption of real stored blobs, not coverage-guided fuzzing and not exhaustive over short inputs (stated in DESIGN section 7)"),
+ "C13": ("Close / second-party rewrite / reload histories on the simulated disk: the stored version triple is set to every supported value, its neighbours, the surrounding box and far-out values; the documented 1.18.0 variant marker is flipped; the directory is given each layout (legacy, Database2, none, both, missing, file moved across layouts). load_database must return exactly the schema the triple (and marker) name, throw unsupported_database for every other triple, throw database_not_found for no/both/missing layouts, and database_exists must agree; no triple may ever load as a different supported schema.",
+         "a thin use of the simulator (decision table over second-party disk states); 3.0.0 and cross-layout triples are outside the statement and accept the mapped schema or an exception"),
  "C15": ("Hostile-caller simulated histories on every supported schema with the library built with AddressSanitizer, UndefinedBehaviorSanitizer and libstdc++ assertions: ordinary operations are interleaved with out-of-range cue/loop indices, over-long cue lists, NUL / invalid-UTF-8 / 300-byte labels, waveforms without sample rate or count, ids of nonexistent or removed entities, create_*_after with crates from elsewhere in the tree, odd crate names and every member function of stale track and crate handles. Each call must return or throw a std::exception; any sanitizer report, signal, assertion, watchdog (VM ticks, inflate progress, wall clock) or foreign exception is a violation attributed to the flushed run; stale handles must keep their id and report is_valid() == false.",
          "finite doubles only (as the statement quantifies); C++ operator new failure is not injected"),
  "C16": ("In every state reached by the workloads a monitor brackets the complete block of observing calls (every getter, snapshot(), listings, lookups) with SimDisk write/truncate/delete counters for non-temporary files, sqlite3_total_changes of the library's connections and the image hash; the block is repeated with the simulated clock moved and must give identical answers.",
